@@ -12,6 +12,7 @@ import math
 import os
 import sys
 import time
+from fractions import Fraction
 
 sys.path.insert(0, os.path.dirname(os.path.abspath(__file__)))
 import common
@@ -42,11 +43,24 @@ def Hs(H):
 
 
 # ------------------------------------------------------------------ generators
+def gen_parent(rng, tilted=True):
+    """a parentOrientation (yaw, pitch, roll); `tilted`: pitch and/or roll non-zero, from barely (0.02 rad) to steep"""
+    if not tilted:
+        return [rng.choice([0.0, rng.uniform(-math.pi, math.pi)]), 0.0, 0.0]
+    mag = lambda: rng.choice([-1, 1]) * rng.choice([rng.uniform(0.02, 0.15), rng.uniform(0.15, 0.9), rng.uniform(0.9, 1.5)])
+    k = rng.random()
+    return [rng.choice([0.0, rng.uniform(-math.pi, math.pi)]), mag() if k < 0.7 else 0.0, mag() if k > 0.4 else 0.0]
+
+
 def gen_pose(rng, kind):
     if kind == "axis":
         return dict(yaw=0.0, pitch=0.0, roll=0.0)
     if kind == "planar":
         return dict(yaw=rng.uniform(-math.pi, math.pi), pitch=0.0, roll=0.0)
+    if kind == "parent":       # tilted ONLY through the parent orientation: own pitch = roll = 0 (parentOrientation x fast paths)
+        return dict(yaw=rng.choice([0.0, rng.uniform(-math.pi, math.pi)]), pitch=0.0, roll=0.0, parent=gen_parent(rng))
+    if kind == "parent-yaw":   # a parent orientation that does not tilt: still a planar box
+        return dict(yaw=rng.uniform(-math.pi, math.pi), pitch=0.0, roll=0.0, parent=gen_parent(rng, tilted=False))
     return dict(yaw=rng.uniform(-math.pi, math.pi), pitch=rng.uniform(-1.5, 1.5), roll=rng.uniform(-math.pi, math.pi))
 
 
@@ -101,7 +115,9 @@ def gen_shape(rng, allow_nonconvex=True, lo=0.5, hi=4.0):
     else:
         o["dims"] = [rng.uniform(lo, hi) for _ in range(3)]
         o["size"] = max(o["dims"]) / 2
-    o.update(gen_pose(rng, rng.choice(["axis", "planar", "planar", "general", "general", "general"])))
+    o.update(gen_pose(rng, rng.choice(["axis", "planar", "planar", "general", "general", "general", "parent", "parent", "parent-yaw"])))
+    if "parent" in o and o["shape"] != "box" and rng.random() < 0.5:
+        o["pitch"], o["roll"] = rng.uniform(-1.0, 1.0), rng.uniform(-1.0, 1.0)      # parent and own tilt composed
     return o
 
 
@@ -129,13 +145,40 @@ def gen_pair(rng, idx):
     if a["shape"] == "box" and b["shape"] == "box" and (planar_pair or rng.random() < 0.5):   # planar boxes: fast path incl. equal z
         for o in (a, b):
             o.update(pitch=0.0, roll=0.0)
+            # own pitch/roll are zero: 65% really planar (no parent / yaw-only parent), 35% tilted through the parent orientation only
+            o.pop("parent", None)
+            k = rng.random()
+            if k < 0.35:
+                o["parent"] = gen_parent(rng)
+            elif k < 0.5:
+                o["parent"] = gen_parent(rng, tilted=False)
         k = rng.random()
         if k < 0.4:
             b["pos"][2] = a["pos"][2]
-        elif k < 0.75:   # stacked: footprints overlap, vertical gap around the touching height
+        elif k < 0.8:   # stacked: footprints overlap; vertical offset as a fraction f of the touching offset (hA+hB)/2, every regime:
+            # deep (f < 1/2: more than half of the summed heights overlap), partial (1/2 < f < 1), around touching, clear above
+            lo, hi = STACK_REGIMES[idx % len(STACK_REGIMES)]
             b["pos"] = [a["pos"][0] + rng.uniform(-0.3, 0.3), a["pos"][1] + rng.uniform(-0.3, 0.3),
-                        a["pos"][2] + rng.choice([-1, 1]) * rng.uniform(0.3, 2.2) * (a["dims"][2] + b["dims"][2]) / 2]
+                        a["pos"][2] + rng.choice([-1, 1]) * rng.uniform(lo, hi) * (a["dims"][2] + b["dims"][2]) / 2]
     return dict(id=f"pr{idx}", a=a, b=b, s=s)
+
+
+STACK_REGIMES = [(0.02, 0.24), (0.26, 0.48), (0.52, 0.74), (0.76, 0.97), (0.9, 1.1), (1.03, 1.5), (1.5, 2.2), (0.52, 0.97)]
+
+
+def gen_stack(rng, idx):
+    """two UPRIGHT boxes (pitch = roll = 0; yaw free, 25% with a yaw-only parent orientation) with overlapping footprints at every
+    vertical-offset regime of STACK_REGIMES: the planar-box fast path of Object.intersects decides these by the z-interval test alone"""
+    a, b = [dict(shape="box", dims=[rng.uniform(0.5, 4.0), rng.uniform(0.5, 4.0), rng.choice([rng.uniform(0.2, 1.0), rng.uniform(1.0, 6.0)])],
+                 **gen_pose(rng, rng.choice(["axis", "planar", "planar", "parent-yaw"]))) for _ in range(2)]
+    for o in (a, b):
+        o["size"] = max(o["dims"]) / 2
+    a["pos"] = [rng.uniform(-100, 100) for _ in range(3)] if rng.random() < 0.6 else [0.0, 0.0, rng.choice([0.0, -3.0, 0.5])]
+    lo, hi = STACK_REGIMES[idx % len(STACK_REGIMES)]
+    f = rng.uniform(lo, hi)
+    b["pos"] = [a["pos"][0] + rng.uniform(-0.2, 0.2), a["pos"][1] + rng.uniform(-0.2, 0.2),
+                a["pos"][2] + rng.choice([-1, 1]) * f * (a["dims"][2] + b["dims"][2]) / 2]
+    return dict(id=f"pr{idx}", a=a, b=b, s=f, stack=f"{lo}-{hi}")
 
 
 def small_guest(rng, room, nonconvex=False):
@@ -150,7 +193,7 @@ def small_guest(rng, room, nonconvex=False):
         dmax = rng.uniform(0.3, 0.95) * room * 2 / math.sqrt(3)
         dims = [dmax * rng.uniform(0.4, 1.0) for _ in range(3)]
         g = dict(shape=k, dims=dims, size=math.sqrt(sum(d * d for d in dims)) / 2)
-    g.update(gen_pose(rng, rng.choice(["axis", "planar", "general", "general", "general"])))
+    g.update(gen_pose(rng, rng.choice(["axis", "planar", "general", "general", "general", "parent"])))
     return g
 
 
@@ -227,7 +270,84 @@ def gen_contain(rng, idx):
     f = rng.uniform(0, 0.6) if m < 0.45 else (rng.uniform(0.6, 1.2) if m < 0.85 else rng.uniform(1.2, 1.8))
     d3 = [rng.uniform(-1, 1) for _ in range(3)]
     obj["pos"] = [base[i] + f * half[i] * d3[i] for i in range(3)]
+    if kind in ("footprint", "box") and rng.random() < 0.4:
+        # a TALL box tilted only through its parent orientation (own pitch = roll = 0), its projected outline crossing or just
+        # inside an edge of the container: the untilted width x length rectangle would give another answer
+        d = [rng.uniform(0.4, 1.2), rng.uniform(0.4, 1.2), rng.uniform(2.0, 5.0)]
+        obj = dict(shape="box", dims=d, size=max(d) / 2, **gen_pose(rng, "parent"))
+        ax = rng.randrange(2)
+        t = [rng.uniform(-0.7, 0.7), rng.uniform(-0.7, 0.7), rng.uniform(-0.2, 0.2)]
+        reach = rng.uniform(0.0, 1.1) * d[2] / 2          # how far the tilted outline may stick out beyond the flat rectangle
+        t[ax] = rng.choice([-1, 1]) * (1 - (rng.uniform(0.1, 0.7) + reach) / half[ax])
+        obj["pos"] = [base[i] + t[i] * half[i] for i in range(3)]
     return dict(id=f"cn{idx}", obj=obj, container=cn)
+
+
+def gen_foot_history(rng, idx):
+    """HISTORY on one PolygonalFootprintRegion instance (rectangle with a hole): a sequence of overlap queries with objects at very
+    different heights (the region caches a bounded slab between calls), each answer compared with a FRESH region's and with
+    certified truth (convex strips of the footprint as tall as needed)."""
+    w, l = rng.uniform(8, 16), rng.uniform(8, 16)
+    base = [rng.uniform(-50, 50), rng.uniform(-50, 50)]
+    x0, y0 = base[0] - w / 2, base[1] - l / 2
+    hw, hl = rng.uniform(2, 3.5), rng.uniform(2, 3.5)
+    hxc, hyc = base[0] + rng.uniform(-1.5, 1.5), base[1] + rng.uniform(-1.5, 1.5)
+    fp = dict(outer=[x0, y0, x0 + w, y0 + l], hole=[hxc - hw / 2, hyc - hl / 2, hxc + hw / 2, hyc + hl / 2])
+    steps = []
+    z0 = rng.choice([0.0, 0.0, rng.uniform(-30, 30), rng.uniform(50, 120)])
+    h0 = None
+    zprev = z0
+    for k in range(rng.randint(4, 8)):
+        o = gen_shape(rng, allow_nonconvex=False, lo=0.4, hi=2.5)
+        if o["shape"] == "spheroid":      # hundreds of vertices in every exact certificate: keep the histories cheap
+            o["shape"] = "box"
+        hgt = 2 * o["size"] + 1
+        h0 = h0 or hgt
+        m = rng.random()
+        if k == 0:
+            z = z0
+        elif m < 0.15:
+            z = zprev                                      # same height again
+        elif m < 0.3:
+            z = z0 + rng.uniform(-0.6, 0.6)                # barely off the first one
+        elif m < 0.75:                                     # far from the first query, within ~50x its (height + 1)
+            z = z0 + rng.choice([-1, 1]) * rng.uniform(1.0, 45.0) * h0
+        elif m < 0.9:
+            z = rng.choice([-1, 1]) * rng.uniform(0, 40)   # about the origin / negative centre heights
+        else:
+            z = z0 + rng.choice([-1, 1]) * rng.uniform(60, 400) * h0 * max(1.0, abs(z0))   # beyond any padding
+        # the padded slab is 100 * max(1, z) * (height + 1) tall: beyond a few 1e5 the single-precision mesh kernels give wrong
+        # answers even on a fresh region (finding C04-F2, design.d/C04.md) -- stay below 1e5
+        z = max(-300.0, min(300.0, z))
+        if abs(z) > 100 and "dims" in o:
+            o["dims"] = [min(d, 1.0) for d in o["dims"]]
+            o["size"] = max(o["dims"]) / 2
+        zprev = z
+        where = rng.choice(["ring", "ring", "ring", "hole", "edge", "edge", "out"])
+        if where == "ring":       # over the solid part of the footprint
+            side = rng.randrange(4)
+            x = rng.uniform(x0, x0 + w) if side < 2 else (rng.uniform(x0, fp["hole"][0]) if side == 2 else rng.uniform(fp["hole"][2], x0 + w))
+            y = (rng.uniform(y0, fp["hole"][1]) if side == 0 else rng.uniform(fp["hole"][3], y0 + l)) if side < 2 else rng.uniform(y0, y0 + l)
+        elif where == "hole":     # small object over the middle of the hole (disjoint if it fits)
+            x, y = hxc + rng.uniform(-0.3, 0.3), hyc + rng.uniform(-0.3, 0.3)
+            o = dict(o, dims=[min(d, 0.9) for d in o["dims"]], size=min(o["size"], 0.45))
+        elif where == "edge":     # around the outer boundary
+            x, y = x0 + w + rng.uniform(-1.5, 1.5) * o["size"], rng.uniform(y0, y0 + l)
+        else:
+            x, y = x0 - rng.uniform(2, 20) - 2 * o["size"], rng.uniform(y0 - 10, y0 + l + 10)
+        o["pos"] = [x, y, z]
+        if rng.random() < 0.25:
+            # a FLAT PolygonalRegion (same polygon) at a height around the object's vertical extent: upright boxes take a fast path
+            # (|z - zp| <= height / 2), everything else the mesh/polygon test
+            if rng.random() < 0.7:
+                d = [rng.uniform(0.4, 2.5) for _ in range(3)]
+                o = dict(shape="box", dims=d, size=max(d) / 2, pos=o["pos"], **gen_pose(rng, rng.choice(["axis", "planar", "planar", "parent-yaw", "parent", "general"])))
+            hz = o["dims"][2] / 2
+            zp = z + rng.choice([-1, 1]) * rng.choice([0.0, rng.uniform(0, 0.45), rng.uniform(0.55, 0.95), rng.uniform(1.05, 1.6), rng.uniform(1.6, 4.0)]) * hz
+            steps.append(dict(obj=o, query="flat", zp=zp, where=where))
+            continue
+        steps.append(dict(obj=o, query=rng.choice(["obj", "vol", "rev"]), where=where))
+    return dict(id=f"fh{idx}", footprint=fp, steps=steps)
 
 
 def run_chunks(kind, cases, timeout=6000):
@@ -283,6 +403,28 @@ class BatchDriver:
         self.collecting = False
 
 
+def check_planar(c, case, objs, tilts, planars, bpolys):
+    """independent checks of the two quantities every planar-box fast path rests on: `_isPlanarBox` must be False for a box whose local z
+    axis is tilted against the global one (whatever combination of parentOrientation and own angles produced the tilt), and
+    `_boundingPolygon` of a convex object must be the projected hull of its vertices"""
+    for k, o in enumerate(objs):
+        t = (tilts or [None] * len(objs))[k]
+        pl = (planars or [None] * len(objs))[k]
+        if t is not None and pl is not None:
+            c.hist("planar:" + ("parent-" if "parent" in o else "") + ("tilted" if t > 1e-6 else "upright") + ":" + ("fast" if pl else "general"))
+            if pl and t > 1e-6:
+                c.violation("planar-classification", "_isPlanarBox holds for a box whose global orientation is tilted",
+                            dict(case=case, which=k, tilt=t, obj=o))
+            if pl and o["shape"] != "box":
+                c.violation("planar-classification", "_isPlanarBox holds for a shape that is not a box", dict(case=case, which=k, obj=o))
+        bp = (bpolys or [None] * len(objs))[k]
+        if bp is not None:
+            c.hist("bounding-polygon:checked")
+            if bp[0] > 1e-6 * (1 + bp[1]):
+                c.violation("bounding-polygon", "_boundingPolygon differs from the projection of the solid",
+                            dict(case=case, which=k, symmetric_difference_area=bp[0], area=bp[1], obj=o, tilt=t))
+
+
 def cert_cmd(t, A, B):
     if t["kind"] == "sep":
         return "SEP " + " ".join(hx(x) for x in t["n"]) + f" {hx(t['d'])} {hx(t['m'])} {V(A)} {V(B)}"
@@ -308,17 +450,20 @@ def main():
     exe = common.build_ocaml(PID)
     quick = c.tier == "quick"
     rng = c.rng
-    n_pr, n_ne, n_cn = (150, 70, 130) if quick else (2400, 1200, 2000)
-    if os.environ.get("VERIF_C04_N"):      # development aid: "pairs,nested,contain"
-        n_pr, n_ne, n_cn = [int(x) for x in os.environ["VERIF_C04_N"].split(",")]
+    n_pr, n_ne, n_cn, n_st, n_fh = (120, 60, 110, 32, 20) if quick else (2200, 1100, 1800, 480, 400)
+    if os.environ.get("VERIF_C04_N"):      # development aid: "pairs,nested,contain,stack,foothist"
+        n_pr, n_ne, n_cn, n_st, n_fh = [int(x) for x in os.environ["VERIF_C04_N"].split(",")]
     pairs = [gen_pair(rng, i) for i in range(n_pr)] + [gen_nested(rng, n_pr + i) for i in range(n_ne)]
+    pairs += [gen_stack(rng, n_pr + n_ne + i) for i in range(n_st)]
     conts = [gen_contain(rng, i) for i in range(n_cn)]
+    fhists = [gen_foot_history(rng, i) for i in range(n_fh)]
     if c.replay:
         body = json.load(open(c.replay))
         case = body.get("case", {}).get("case")
         if case:
             pairs = [case] if case["id"].startswith("pr") else []
             conts = [case] if case["id"].startswith("cn") else []
+            fhists = [case] if case["id"].startswith("fh") else []
     phase = c.cov.setdefault("phase_s", {})
 
     # The evaluation below is executed twice: a dry pass that only collects the model-driver commands (so that the
@@ -405,13 +550,27 @@ def main():
                         c.violation("min-distance", "minimum distance differs from the certified gap", dict(case=case, impl=md, gap=r["gap"]))
                 elif not truth_val and md <= 0:
                     c.violation("min-distance", "non-positive minimum distance reported for disjoint objects", dict(case=case, impl=md))
+            if case.get("stack"):
+                c.hist("pair:stack-regime:" + case["stack"] + (":overlap" if truth_val else (":disjoint" if truth_val is False else ":close")))
+            check_planar(c, case, [case["a"], case["b"]], r.get("tilt"), [(r.get("oracles") or {}).get("a_planar"), (r.get("oracles") or {}).get("b_planar")], r.get("bpoly"))
             # cascade model vs implementation, and every shortcut vs truth / last pass
             o = r.get("oracles")
             if o is None:
                 c.hist("pair:oracles-unavailable")
                 continue
             bits = " ".join("1" if o[k] else "0" for k in IBITS)
-            mo = drv(["CASC " + bits, f"OBJ {int(o['both_planar_boxes'])} {int(o['z_apart'])} {int(o['polys_intersect'])} " + bits])
+            z_apart = o["z_apart"]
+            if o["both_planar_boxes"] and case["a"]["shape"] == "box" and case["b"]["shape"] == "box":
+                # the z-interval test is part of the model: evaluated exactly on the numbers (unless within rounding of the threshold)
+                za = (r.get("guest_pos") if "rel_local" in case["a"] else case["a"]["pos"])[2]
+                zb = (r.get("guest_pos") if "rel_local" in case["b"] else case["b"]["pos"])[2]
+                ha, hb = case["a"]["dims"][2], case["b"]["dims"][2]
+                if abs(abs(za - zb) - (ha + hb) / 2) > 1e-9 * (1 + abs(za) + abs(zb)):
+                    z_apart = drv([f"ZAP {hx(za)} {hx(ha)} {hx(zb)} {hx(hb)}"])[0] == "1"
+                    c.hist("pair:z-interval-test:model:" + ("apart" if z_apart else "meet"))
+            if drv.collecting:      # the dry pass does not know the model's z-test answer yet: queue both variants
+                drv([f"OBJ {int(o['both_planar_boxes'])} {int(not z_apart)} {int(o['polys_intersect'])} " + bits])
+            mo = drv(["CASC " + bits, f"OBJ {int(o['both_planar_boxes'])} {int(z_apart)} {int(o['polys_intersect'])} " + bits])
             ans, pas = mo[0].split()
             c.hist("pair:pass:" + pas)
             c.hist("pair:path:" + ("planar-boxes" if o["both_planar_boxes"] else "volume"))
@@ -494,6 +653,7 @@ def main():
                     c.violation("containment", "containsObject disagrees with certified exact geometry",
                                 dict(case=case, impl=r["contains"], truth=truth_val, why=t["why"], min_slack=t["min_slack"], oracles=r.get("oracles") or r.get("foot")))
             c.count((case["obj"], case["container"]), nontrivial=truth_val is not None)
+            check_planar(c, case, [case["obj"]], [r.get("tilt")], [r.get("planar")], [r.get("bpoly")])
             o = r.get("oracles")
             if o is not None and (o["c_convex"] or o["c_have_obj_point"]):
                 mo = drv(["CONT " + " ".join("1" if o[k] else "0" for k in CBITS)])[0].split()
@@ -533,6 +693,81 @@ def main():
                     c.violation("shortcut", "shortcut footprint-hull contradicts certified exact geometry", dict(case=case, oracles=f, truth=truth_val))
         if drv.collecting:
             phase["contain_impl_and_dry"] = round(time.time() - t0, 1)
+
+        # ---------------------------------------------------------------- histories on one footprint region
+        t0 = time.time()
+        if "foothist" not in res_cache:
+            res_cache["foothist"] = run_chunks("foothist", fhists) if fhists else {}
+        res = res_cache["foothist"]
+        for case in fhists:
+            r = res.get(case["id"])
+            if r is None or "crash" in r:
+                c.violation("harness", "implementation driver crashed", dict(case=case, crash=(r or {}).get("crash"), tb=(r or {}).get("tb")), no_input=True)
+                continue
+            reused, prev_cache = 0, None
+            for k, (st, rs) in enumerate(zip(case["steps"], r["steps"])):
+                rep = dict(case=dict(case, steps=case["steps"][:k + 1]), step=k, query=st["query"], shared=rs.get("shared"), fresh=rs.get("fresh"), cache=rs.get("cache"),
+                           huge_slab=bool("req" in rs and 100 * max(1.0, rs["req"][0]) * rs["req"][1] > 2e5))
+                if "exc" in rs:
+                    c.violation("exception", "an overlap query against a footprint region raised", dict(rep, exc=rs["exc"]))
+                    break
+                truth = rs["truth"]
+                truth_val = truth["overlap"]
+                if truth_val is not None:
+                    cmds = [cert_cmd(t, rs["pieces_a"][t["i"]], rs["pieces_b"][t["j"]]) for t in truth["certs"]]
+                    if not all(x == "1" for x in drv(cmds)):
+                        c.hist("foothist:certificate-rejected")
+                        truth_val = None
+                if truth_val is None:
+                    skipped_close += 1
+                c.hist("foothist:step:" + st["where"] + ":" + ("close" if truth_val is None else ("overlap" if truth_val else "disjoint")))
+                c.hist("foothist:query:" + st["query"])
+                c.count(n=1)
+                if st["query"] == "flat":
+                    c.hist("flat:" + ("planar-box" if rs.get("planar") else "general") + ":" + ("close" if truth_val is None else ("overlap" if truth_val else "disjoint")))
+                    rep = dict(rep, zp=st["zp"], object_intersects=rs["shared"], region_intersects=rs["fresh"], region_intersects_rev=rs.get("rev"))
+                    if len({rs["shared"], rs["fresh"], rs.get("rev")}) > 1 and truth_val is not None:
+                        c.violation("overlap", "Object.intersects and the region-level test disagree about a flat polygonal region", dict(rep, truth=truth_val))
+                    elif truth_val is not None and rs["shared"] != truth_val:
+                        c.violation("overlap", "overlap with a flat polygonal region disagrees with certified exact geometry", dict(rep, truth=truth_val))
+                    if truth_val is not None:
+                        c.cov["traces_validated_against_impl"] += 1
+                    continue
+                if k > 0 and prev_cache is not None and rs.get("cache") == prev_cache:
+                    reused += 1
+                prev_cache = rs.get("cache")
+                if rs["shared"] != rs["fresh"]:
+                    c.violation("history", "a footprint region that has answered earlier queries answers differently from a fresh region",
+                                dict(rep, truth=truth_val))
+                if truth_val is not None and rs["fresh"] != truth_val:
+                    c.violation("overlap", "overlap with a polygonal footprint disagrees with certified exact geometry", dict(rep, truth=truth_val))
+                elif truth_val is not None and rs["shared"] != truth_val:
+                    c.violation("overlap", "overlap with a (reused) polygonal footprint disagrees with certified exact geometry", dict(rep, truth=truth_val))
+                if truth_val is not None:
+                    c.cov["traces_validated_against_impl"] += 1
+            c.hist("foothist:cache-reused-steps", reused)
+            # approxBoundFootprint over the same history of requests vs the extracted cache model (run_requests approx)
+            rq = [rs for rs in r["steps"] if "req" in rs]
+            if len(rq) == sum(1 for st in case["steps"] if st["query"] != "flat") and rq:
+                line = drv(["SLAB " + str(len(rq)) + " " + " ".join(hx(rs["req"][0]) + " " + hx(rs["req"][1]) for rs in rq)])[0]
+                if not drv.collecting:
+                    slabs = [[Fraction(int(a.split("/")[0], 0), int(a.split("/")[1], 0)) for a in t.split(":")] for t in line.split()]
+                    for k, (rs, (mc, mh)) in enumerate(zip(rq, slabs)):
+                        lo, hi = float(mc - mh / 2), float(mc + mh / 2)
+                        tol = 1e-6 + 2e-5 * float(mh)
+                        cz, hz = rs["req"]
+                        rep = dict(case=case, step_among_footprint_queries=k, request=rs["req"], returned_z=rs["api_z"], model_z=[lo, hi])
+                        c.count(n=1)
+                        if rs["api_z"][0] > cz - hz / 2 + tol or rs["api_z"][1] < cz + hz / 2 - tol:
+                            c.violation("footprint-slab", "approxBoundFootprint returned a region that does not cover the requested z-interval", rep)
+                        elif abs(rs["api_z"][0] - lo) > tol or abs(rs["api_z"][1] - hi) > tol:
+                            c.violation("footprint-slab", "approxBoundFootprint differs from the cache model over the same history of requests", rep)
+                        c.hist("foothist:slab:" + ("first" if k == 0 else ("reused" if slabs[k] == slabs[k - 1] else "rebuilt")))
+            elif r["steps"]:
+                c.hist("foothist:slab-api-unavailable")
+            c.count(("fh", case["footprint"], case["steps"]), nontrivial=reused > 0)
+        if drv.collecting:
+            phase["foothist_impl_and_dry"] = round(time.time() - t0, 1)
         if drv.collecting:
             t0 = time.time()
             drv.flush()
